@@ -180,6 +180,8 @@ def run(ctx):
         times = [[0.0], [0.0, 1.0], [0.0, 1.0, 2.0]][i % 3]
         vary = i % 3 > 0
         mat = custom_material(rng, tab=vary)
+        if not vary:
+            mat["m"] = hx([8.0, 10.0][(i // 3) % 2])      # static branch with an even integer modulus: (-x)^m is positive
         comp = {"material": mat, "times": times, "time": rng.choice([0.0, 1000.0]), "models": MODELS,
                 "panels": [[gen_tube(rng, len(times), compressive=True)]]}
         jobs.append(("compressive", add(comp), None))
